@@ -912,6 +912,11 @@ class AbstractExcelInPython(ABC):
     def _search(self, find_text: str, within_text: str, start_num: int | None):
         # a start position made by another function may be a whole float (6/2 is 3.0)
         start_num = int(start_num) if start_num else 1
+        # a blank cell as the text to find or to search in is the empty text
+        if isinstance(find_text, self.EmptyCell):
+            find_text = ''
+        if isinstance(within_text, self.EmptyCell):
+            within_text = ''
         if start_num and (start_num > len(within_text) or start_num <= 0):
             return '#VALUE!'
 
